@@ -668,7 +668,10 @@ static size_t copy_chars (UCHAR* from, UCHAR* to, size_t count, interactive_t* i
                * Ok...  need to call a function on the interactive object,
                * passing the buffer as a paramater.
                */
-              ip->sb_buf[ip->sb_pos] = 0;	/* may need setup as a buffer */
+              /* terminate, and clear the unused tail: the handlers below read fixed
+               * offsets (sb_buf[1..4]) that a short suboption has not filled, which
+               * would otherwise be malloc garbage or bytes of an earlier suboption */
+              memset (ip->sb_buf + ip->sb_pos, 0, SB_SIZE - ip->sb_pos);
               switch (ip->sb_buf[0])
                 {
                 case TELOPT_TTYPE:
